@@ -1,7 +1,7 @@
 (** C02 - captured versions (clones and persisted roots) never change afterwards.
     Statements only; proofs are in Hist.v / Persist.v. *)
 From Coq Require Import List NArith ZArith Bool.
-From Mast Require Import Prim Key Tree KeyOrder Codec Store Diff World Erase Build Spec Canon Level Inv Hist Persist Reload WorldInv VersionsHist Cache.
+From Mast Require Import Prim Key Tree KeyOrder Codec Store Diff World Erase Build Spec Canon Level Inv Hist Persist Reload WorldInv VersionsHist Cache CacheHist.
 Import ListNotations.
 
 (** the operation a step is applied to *)
@@ -93,6 +93,20 @@ Theorem C02_cache_transparent : forall f c st kind bf l rt,
   good_root f st kind bf l rt -> coherent f kind c st -> load_mast_c c st kind rt = load_mast st kind rt.
 Proof. exact load_mast_c_transparent. Qed.
 
+(** ... over whole histories: whatever node cache the world has at each step - shared by all trees,
+    empty, large, evicting: any policy, any contents - as long as it is coherent with the stores when the
+    step runs, the history is step for step (new world, result, trace) the history without a cache; and
+    a cache that is coherent stays coherent along any history, because stores only grow *)
+Theorem C02_histories_through_caches : forall ops pol i w a,
+  winv2 w a -> conds w a ops -> cohs pol i w ops -> run_c pol i w ops = run w ops.
+Proof. exact history_through_caches. Qed.
+Theorem C02_histories_through_a_fixed_cache : forall ops wc w a,
+  winv2 w a -> conds w a ops -> wcoherent wc w -> run_c (fun _ => wc) 0 w ops = run w ops.
+Proof. exact history_through_a_fixed_cache. Qed.
+Theorem C02_steps_keep_caches_coherent : forall wc w o, (match o with OCorrupt _ _ _ _ => False | _ => True end) ->
+  wcoherent wc w -> wcoherent wc (fst (fst (step w o))).
+Proof. exact step_keeps_coherence. Qed.
+
 Print Assumptions C02_frame.
 Print Assumptions C02_captured_stable.
 Print Assumptions C02_store_monotone.
@@ -100,3 +114,6 @@ Print Assumptions C02_persist_keeps_contents.
 Print Assumptions C02_captured_tree_never_changes.
 Print Assumptions C02_captured_root_never_changes.
 Print Assumptions C02_cache_transparent.
+Print Assumptions C02_histories_through_caches.
+Print Assumptions C02_histories_through_a_fixed_cache.
+Print Assumptions C02_steps_keep_caches_coherent.
